@@ -36,7 +36,7 @@ FIELD = {  # python attribute -> (getter, setter, type)
     "name": ("q_name", "set_name", "N"), "mode": ("q_mode", "set_mode", "Z"),
 }
 IGNORED_ATTRS = {"gate_factor", "gate_bits", "op_type"}
-NAME_CTOR = {"quantized_po2": "NPo2", "quantized_relu_po2": "NReluPo2", "ternary": "NTernary", "binary": "NBinary", "quantized_bits": "NQBits"}
+NAME_CTOR = {"quantized_po2": "NPo2", "quantized_relu_po2": "NReluPo2", "ternary": "NTernary", "binary": "NBinary", "quantized_bits": "NQBits", "quantized_relu": "NQRelu"}
 MULT_IMPL = {"FixedPointMultiplier": "IMul", "Shifter": "IShifter", "Mux": "IMux", "AndGate": "IAnd", "XorGate": "IXor", "Adder": "IAdd",
              "FloatingPointMultiplier": "IFMul"}
 ADD_IMPL = {"FixedPointAdder": "AFixed", "Po2FixedPointAdder": "APo2Fixed", "Po2Adder": "APo2", "FloatingPointAdder": "AFloat"}
@@ -71,6 +71,8 @@ def as_int(v):
 
 
 class Exec:
+  SELF_RECORD = False          # True: `self` is the quantizer record under construction (quantizer_impl classes)
+
   def __init__(self, env, funcs):
     self.env = dict(env)      # local name -> Val
     self.attrs = {}           # self.<attr> -> Val
@@ -79,6 +81,7 @@ class Exec:
 
   def clone(self):
     e = Exec(self.env, self.funcs)
+    e.SELF_RECORD = self.SELF_RECORD
     e.attrs = dict(self.attrs)
     e.ret = self.ret
     return e
@@ -101,10 +104,18 @@ class Exec:
       raise Fail(f"unknown name {n.id}")
     if isinstance(n, ast.Attribute):
       if isinstance(n.value, ast.Name) and n.value.id == "self":
+        if self.SELF_RECORD and n.attr in FIELD:
+          g, _, ty = FIELD[n.attr]
+          return Val(ty, f"({g} {self.attrs['__self__'].s})")
         if n.attr in self.attrs:
           return self.attrs[n.attr]
         raise Fail(f"unknown self.{n.attr}")
       base = self.ev(n.value)
+      if base.ty == "K":                               # the qkeras quantizer being converted: its options are function parameters
+        kinds = {"bits": "Z", "integer": "Z", "keep_negative": "B", "negative_slope": "SlopeNZ"}
+        if n.attr not in kinds:
+          raise Fail(f"qkeras quantizer option {n.attr}")
+        return Val(kinds[n.attr], n.attr if kinds[n.attr] != "SlopeNZ" else "slope_nonzero")
       if base.ty == "Q":
         if n.attr in FIELD:
           g, _, ty = FIELD[n.attr]
@@ -154,6 +165,10 @@ class Exec:
         s = f"({fn} {hay.s})"
         return Val("B", s if isinstance(op, ast.In) else f"(negb {s})")
       a, b = self.ev(l), self.ev(r)
+      if a.ty == "SlopeNZ":
+        if isinstance(op, ast.NotEq) and b.ty == "Z" and b.s == "0":
+          return Val("B", "slope_nonzero")
+        raise Fail("negative_slope comparison")
       if a.ty == "N" and b.ty == "S":
         fn = {"binary": "name_is_binary", "ternary": "name_is_ternary"}.get(b.s)
         if not fn:
@@ -200,6 +215,10 @@ class Exec:
     if fn == "int":
       v = self.ev(n.args[0])
       return Val("Z", as_int(v))
+    if fn == "get_np_value":
+      return self.ev(n.args[0])
+    if fn == "hasattr":
+      return Val("B", "true")
     if fn == "max":
       a, b = [as_int(self.ev(x)) for x in n.args]
       return Val("Z", f"(Z.max {a} {b})")
@@ -329,6 +348,23 @@ class Exec:
       if isinstance(t, ast.Attribute):
         if isinstance(t.value, ast.Name) and t.value.id == "self":
           if t.attr in IGNORED_ATTRS:
+            return
+          if self.SELF_RECORD and t.attr in FIELD:
+            val = self.ev(v)
+            if t.attr == "name" and val.ty == "None":
+              return                                   # IQuantizer.__init__: name = None, always overwritten by the subclass
+            _, setter, ty = FIELD[t.attr]
+            if ty == "B":
+              sv = as_bool(val)
+            elif ty == "Z":
+              sv = as_int(val)
+            elif ty == "M":
+              sv = "None" if (val.ty == "Z" and val.s == "(-1)") else val.s
+            else:
+              if val.ty != "S" or val.s not in NAME_CTOR:
+                raise Fail("name value")
+              sv = NAME_CTOR[val.s]
+            self.attrs["__self__"] = Val("Q", f"({setter} {self.attrs['__self__'].s} {sv})")
             return
           self.attrs[t.attr] = self.ev(v)
           return
@@ -500,6 +536,41 @@ def emit(outdir):
     lines.append(f"Definition gen_FixedPointAccumulator (kernel_ops : Z) (use_bias : bool) (m : qt) : qt :=\n  {acc('FixedPointAccumulator')}.")
     lines.append(f"Definition gen_Po2Accumulator (kernel_ops : Z) (use_bias : bool) (m : qt) : qt :=\n  {acc('Po2Accumulator')}.")
     lines.append(f"Definition gen_FloatingPointAccumulator (m : qt) : qt :=\n  {acc('FloatingPointAccumulator')}.")
+    # ---- AccumulatorFactory.make_accumulator: which accumulator class for which multiplier output
+    acf = ast.parse(open(os.path.join(QO, "accumulator_factory.py")).read())
+    mk_acc = find_func(find_class(acf, "AccumulatorFactory"), "make_accumulator")
+    disp = {"deepcopy": lambda args: args[0],
+            "FloatingPointAccumulator": lambda args: Val("Q", f"(gen_FloatingPointAccumulator {args[0].s})"),
+            "Po2Accumulator": lambda args: Val("Q", f"(gen_Po2Accumulator kernel_ops {as_bool(args[2])} {args[1].s})"),
+            "FixedPointAccumulator": lambda args: Val("Q", f"(gen_FixedPointAccumulator kernel_ops {as_bool(args[2])} {args[1].s})")}
+    ex = Exec({"kernel_shape": Val("Shape", None), "multiplier": Val("Q", "m"), "use_bias": Val("B", "use_bias")}, disp)
+    ex.run(mk_acc.body)
+    if ex.ret is None or ex.ret.ty != "Q":
+      raise Fail("make_accumulator does not return an accumulator")
+    lines.append(f"Definition gen_make_accumulator (kernel_ops : Z) (use_bias : bool) (m : qt) : qt :=\n  {ex.ret.s}.")
+
+    # ---- conversion of qkeras quantizers into qtools types (quantizer_impl.py)
+    qi = ast.parse(open(os.path.join(QO, "quantizer_impl.py")).read())
+    base_init = find_func(find_class(qi, "IQuantizer"), "__init__")
+
+    def conv(cname, params):
+      cls = find_class(qi, cname)
+      ex = Exec({"quantizer": Val("K", None)}, {})
+      ex.SELF_RECORD = True
+      ex.attrs["__self__"] = Val("Q", "(QT 0 0 0 false false false None NQBits None)")
+
+      def sup(ex_, call):
+        ex_.funcs["__super__"] = None
+        ex_.run(base_init.body)
+        ex_.funcs["__super__"] = sup
+      ex.funcs["__super__"] = sup
+      ex.run(find_func(cls, "__init__").body)
+      if "set_name" not in ex.attrs["__self__"].s:
+        raise Fail(f"{cname}.__init__ sets no name")
+      ex.run(find_func(cls, "convert_qkeras_quantizer").body)
+      return f"Definition gen_conv_{cname} {params} : qt :=\n  {ex.attrs['__self__'].s}."
+    lines.append(conv("QuantizedBits", "(bits integer : Z) (keep_negative : bool)"))
+    lines.append(conv("QuantizedRelu", "(bits integer : Z) (slope_nonzero : bool)"))
   except Fail as e:
     ok, why = False, str(e)
   except (OSError, SyntaxError, KeyError, AttributeError, IndexError) as e:
